@@ -44,6 +44,9 @@ ASSUMPTIONS = [
 EXHAUSTIVE = {"quick": False, "thorough": True}
 
 
+_NONTERMINATING = {}
+
+
 class CaseTimeout(BaseException):
     """not an `Exception`: the interpreter's own `except Exception` in `_advance_head_front` must not swallow it"""
 
@@ -259,9 +262,16 @@ def run_impl(case):
     cv.REC.reset()
     cv.REC.rng = random.Random(case.get("tie_seed", 0))
     obs = {"steps": [], "notes": []}
+    pkey = json.dumps(case.get("prog") or case.get("src"), sort_keys=True)
+    hist = list(case["history"])
+    if any(hist[:len(pre)] == pre for pre in _NONTERMINATING.get(pkey, [])):
+        # the same program already ran into the time budget on the same history prefix (non-termination is C10's subject)
+        obs["timeout"] = True
+        obs["findings"] = []
+        return obs
     try:
         # repeating timer: a first expiry inside a `__del__` / ignored context would otherwise be lost
-        signal.setitimer(signal.ITIMER_REAL, float(case.get("budget_s", 6)), 0.5)
+        signal.setitimer(signal.ITIMER_REAL, float(case.get("budget_s", 4)), 0.5)
     except Exception:  # noqa
         pass
     try:
@@ -373,6 +383,9 @@ def run_impl(case):
                     events.insert(0, ["auto", pend[0][0]])
     except CaseTimeout:
         obs["timeout"] = True
+        # history items consumed so far (the `start_main` step and auto-answers are not history items)
+        done = sum(1 for st_ in obs["steps"] if st_["item"][0] not in ("start_main", "auto"))
+        _NONTERMINATING.setdefault(pkey, []).append(hist[:done + 1])
     finally:
         try:
             signal.setitimer(signal.ITIMER_REAL, 0)
